@@ -64,6 +64,8 @@ func (sc *samplingCoordinator) run(ctx context.Context, cp checkpoint) {
 	for _, wk := range cp.Workers {
 		sc.runWorker(ctx, sc.state.newJob(wk.JobType, wk.From, wk.To))
 	}
+	// nothing may be left to do after the resume
+	sc.state.checkDone()
 
 	for {
 		for !sc.concurrencyLimitReached() {
